@@ -25,4 +25,115 @@ theorem leU32_append (b x : Bytes) (h : 4 ≤ b.length) : leU32 (b ++ x) = leU32
 theorem leInt32_append (b x : Bytes) (h : 4 ≤ b.length) : leInt32 (b ++ x) = leInt32 b := by
   unfold leInt32; rw [leU32_append b x h]
 
+
+variable {Msg : Type}
+
+/-! ### `parseOne` -/
+
+/-- a buffer that starts with a well-formed frame of a decodable payload yields that message and the rest -/
+theorem parseOne_frame (dec : Bytes → Option Msg) (p x : Bytes) (m : Msg)
+    (hd : dec p = some m) (hs : p.length < 2147483648) :
+    parseOne dec (frame p ++ x) = .msg m x := by
+  have hl : (frame p ++ x).length = 4 + p.length + x.length := by simp [frame_length]
+  have hi : leInt32 (frame p ++ x) = (p.length : Int) := by
+    simp only [frame, List.append_assoc]; exact leInt32_le32 _ hs _
+  have hd4 : (frame p ++ x).drop 4 = p ++ x := by
+    simp [frame, le32]
+  unfold parseOne
+  rw [hi, hl, hd4]
+  have h1 : ¬ (4 + p.length + x.length < 4) := by omega
+  have h2 : ¬ ((p.length : Int) < 0) := by omega
+  have h3 : ¬ (((4 + p.length + x.length : Nat) : Int) - 4 < (p.length : Int)) := by omega
+  simp only [h1, h2, h3, if_false, Int.toNat_natCast, List.take_left', hd]
+  congr 1
+  rw [show 4 + p.length = (frame p).length from (frame_length p).symm]
+  simp
+
+/-- a negative length field is rejected as soon as the four bytes are there (repair D13) -/
+theorem parseOne_negative (dec : Bytes → Option Msg) (b : Bytes) (h4 : 4 ≤ b.length) (hn : leInt32 b < 0) :
+    parseOne dec b = .bad := by
+  unfold parseOne
+  have : ¬ b.length < 4 := by omega
+  simp [this, hn]
+
+/-- a complete frame whose payload does not decode is rejected -/
+theorem parseOne_undecodable (dec : Bytes → Option Msg) (p x : Bytes)
+    (hd : dec p = none) (hs : p.length < 2147483648) :
+    parseOne dec (frame p ++ x) = .bad := by
+  have hl : (frame p ++ x).length = 4 + p.length + x.length := by simp [frame_length]
+  have hi : leInt32 (frame p ++ x) = (p.length : Int) := by
+    simp only [frame, List.append_assoc]; exact leInt32_le32 _ hs _
+  have hd4 : (frame p ++ x).drop 4 = p ++ x := by
+    simp [frame, le32]
+  unfold parseOne
+  rw [hi, hl, hd4]
+  have h1 : ¬ (4 + p.length + x.length < 4) := by omega
+  have h2 : ¬ ((p.length : Int) < 0) := by omega
+  have h3 : ¬ (((4 + p.length + x.length : Nat) : Int) - 4 < (p.length : Int)) := by omega
+  simp only [h1, h2, h3, if_false, Int.toNat_natCast, List.take_left', hd]
+
+/-- a strict prefix of a frame makes the parser wait -/
+theorem parseOne_partial (dec : Bytes → Option Msg) (p t : Bytes) (hs : p.length < 2147483648)
+    (ht : t <+: frame p) (hlt : t.length < (frame p).length) : parseOne dec t = .wait := by
+  obtain ⟨r, hr⟩ := ht
+  unfold parseOne
+  by_cases h4 : t.length < 4
+  · simp [h4]
+  · have hi : leInt32 t = (p.length : Int) := by
+      have := leInt32_le32 p.length hs p
+      rw [← frame, ← hr, leInt32_append t r (by omega)] at this
+      exact this
+    rw [frame_length] at hlt
+    have h2 : ¬ ((p.length : Int) < 0) := by omega
+    have h3 : ((t.length : Int) - 4 < (p.length : Int)) := by omega
+    simp only [h4, hi, h2, h3, if_false, if_true]
+
+/-- `.bad` is stable under more bytes arriving -/
+theorem parseOne_bad_append (dec : Bytes → Option Msg) (b x : Bytes) (h : parseOne dec b = .bad) :
+    parseOne dec (b ++ x) = .bad := by
+  unfold parseOne at h ⊢
+  by_cases h4 : b.length < 4
+  · simp [h4] at h
+  · have h4' : ¬ (b ++ x).length < 4 := by simp; omega
+    rw [leInt32_append b x (by omega)]
+    simp only [h4, h4', if_false] at h ⊢
+    by_cases hn : leInt32 b < 0
+    · simp [hn]
+    · simp only [hn, if_false] at h ⊢
+      by_cases hw : (b.length : Int) - 4 < leInt32 b
+      · simp [hw] at h
+      · have hw' : ¬ (((b ++ x).length : Nat) : Int) - 4 < leInt32 b := by
+          simp only [List.length_append, Int.natCast_add]; omega
+        simp only [hw, hw', if_false] at h ⊢
+        have hlen : (leInt32 b).toNat ≤ (b.drop 4).length := by simp; omega
+        rw [List.drop_append_of_le_length (by omega), List.take_append_of_le_length hlen]
+        split at h <;> simp_all
+
+/-- `.msg` is stable under more bytes arriving: same message, the new bytes stay behind it -/
+theorem parseOne_msg_append (dec : Bytes → Option Msg) (b x : Bytes) (m : Msg) (rest : Bytes)
+    (h : parseOne dec b = .msg m rest) : parseOne dec (b ++ x) = .msg m (rest ++ x) := by
+  unfold parseOne at h ⊢
+  by_cases h4 : b.length < 4
+  · simp [h4] at h
+  · have h4' : ¬ (b ++ x).length < 4 := by simp; omega
+    rw [leInt32_append b x (by omega)]
+    simp only [h4, h4', if_false] at h ⊢
+    by_cases hn : leInt32 b < 0
+    · simp [hn] at h
+    · simp only [hn, if_false] at h ⊢
+      by_cases hw : (b.length : Int) - 4 < leInt32 b
+      · simp [hw] at h
+      · have hw' : ¬ (((b ++ x).length : Nat) : Int) - 4 < leInt32 b := by
+          simp only [List.length_append, Int.natCast_add]; omega
+        simp only [hw, hw', if_false] at h ⊢
+        have hlen : (leInt32 b).toNat ≤ (b.drop 4).length := by simp; omega
+        have hlen2 : 4 + (leInt32 b).toNat ≤ b.length := by omega
+        rw [List.drop_append_of_le_length (by omega), List.take_append_of_le_length hlen,
+            List.drop_append_of_le_length hlen2]
+        split at h
+        · cases h
+        · rename_i m' hm
+          cases h
+          rfl
+
 end PSO.Framing
